@@ -8,7 +8,7 @@ from concurrent.futures import ProcessPoolExecutor
 from lib import common, play, stories
 
 LEVEL = "proof"
-THEOREM_MODULES = ["Proofs.C01"]
+THEOREM_MODULES = ["Proofs.C01", "Proofs.C01Linear"]
 REQUIRED_THEOREMS = [
     "Ink.C01.wrap32_range", "Ink.C01.wrap32_id", "Ink.C01.wrap32_congr", "Ink.C01.wrap32_eq_wrapI32", "Ink.C01.intOp_range",
     "Ink.C01.intOp_div_zero", "Ink.C01.intOp_error_iff", "Ink.C01.cleanText_idem", "Ink.C01.cleanText_no_edge_blanks",
@@ -17,6 +17,9 @@ REQUIRED_THEOREMS = [
     "Ink.C01.play_append_of_not_choice", "Ink.C01.play_extend", "Ink.C01.restoreSnapshot_state",
     "Ink.C01.discardSnapshot_keeps", "Ink.C01.stateSnapshot_saves", "Ink.C01.lookahead_undone",
     "Ink.C01.continueSingleStep_rewind", "Ink.C01.continueSingleStep_snapshot", "Ink.C01.stepLoop_newline",
+    # look-ahead execution = ONE linear execution cut at the call ends (effects exactly once)
+    "Ink.C01Linear.stepLoop_inv", "Ink.C01Linear.continueInternal_is_linear_prefix", "Ink.C01Linear.cont_is_linear_prefix",
+    "Ink.C01Linear.conts_are_one_linear_run", "Ink.C01Linear.effect_log_eq", "Ink.C01Linear.ex4_two_calls",
 ]
 RULE = ("a case = one choice path of one program: programs are drawn from the generator over core Ink (gen/srcgen.py: "
         "knots, stitches, diverts, weave choices and gathers with once-only / sticky / conditional / fallback / labelled "
